@@ -195,7 +195,7 @@ func runC17(c *Ctx) {
 					}
 					continue
 				}
-				o := asm.GenOpts{Cfg: cfg, MaxLines: 1 + r.Intn(min(cfg.Length, 8)), UseLabels: true, UseEqus: r.Bool(), UseFor: r.Chance(1, 5), MaxForExp: 5, UseConsts: r.Bool(), Meta: r.Chance(1, 3)}
+				o := asm.GenOpts{Cfg: cfg, MaxLines: 1 + r.Intn(min(cfg.Length, 8)), UseLabels: true, UseEqus: r.Bool(), UseFor: r.Chance(1, 5), MaxForExp: []int{5, 5, 12}[r.Intn(3)], UseConsts: r.Bool(), Meta: r.Chance(1, 3)}
 				p = asm.GenProg(r, o)
 				if r.Chance(1, 3) {
 					// a true ;assert over a chain of EQUs (an author's sanity check of the constants)
